@@ -59,4 +59,11 @@ def texIfx : XTok → XTok → Bool
   | .mac _ x, .mac _ y => x == y
   | _, _ => false
 
+/-- `\newif\if<rest>` (TeXbook p. 211; LaTeX `\newif`): the setters are `\<rest>true` and `\<rest>false`
+    where `<rest>` is the switch name without its first two characters `if` — whatever letters `<rest>`
+    itself begins with.  `none` when the name does not start with `if` (TeX then raises an error). -/
+def texSetterNames : List Nat → Option (List Nat × List Nat)
+  | 105 :: 102 :: rest => some (rest ++ [116, 114, 117, 101], rest ++ [102, 97, 108, 115, 101])
+  | _ => none
+
 end PlasVerif.Spec.TeXTests
